@@ -123,7 +123,32 @@ fn esc(s: &str) -> String {
     o
 }
 fn idx(l: Locale) -> String { Locale::get_all().iter().position(|x| *x == l).map(|i| i.to_string()).unwrap_or("?".into()) }
+// a second locale enum living in the same process (an embedded component with its own translations): the same
+// names in another order plus one name of its own; it is used FIRST, so that anything the library shares
+// between locale enums is filled by it
+mod other_set {
+    leptos_i18n::declare_locales! {
+        path: leptos_i18n,
+        default: OTHER_DEFAULT,
+        locales: [OTHER_LOCALES],
+        OTHER_BODIES
+    }
+}
 fn main() {
+    {
+        use other_set::i18n::Locale as Other;
+        let probes: &[&str] = &[PROBES];
+        for p in probes.iter() {
+            let _ = Other::from_str(p);
+            let _ = serde_json::from_str::<Other>(&serde_json::to_string(p).unwrap());
+            let _ = <codee::string::FromToStringCodec as codee::Decoder<Other>>::decode(p);
+        }
+        for (i, l) in <Other as leptos_i18n::Locale>::get_all().iter().copied().enumerate() {
+            let name = leptos_i18n::Locale::as_str(l);
+            let back = Other::from_str(name).map(|x| leptos_i18n::Locale::as_str(x).to_string()).unwrap_or("ERR".into());
+            println!("o{i}|roundtrip\t{}\u{1f}{}\u{1f}{:?}", esc(name), esc(&back), leptos_i18n::Locale::direction(l));
+        }
+    }
     let all = Locale::get_all();
     println!("n\t{}", all.len());
     println!("default\t{}", idx(Locale::default()));
@@ -164,7 +189,25 @@ fn main() {
     );
     let probes: Vec<String> = c.probes.iter().map(|p| rust_str(p)).collect();
     s = s.replace("PROBES", &probes.join(", "));
+    let others = other_set(c);
+    s = s.replace("OTHER_DEFAULT", &rust_str(&others[0]));
+    s = s.replace("OTHER_LOCALES", &others.iter().map(|l| rust_str(l)).collect::<Vec<_>>().join(", "));
+    let bodies: Vec<String> = others.iter().map(|l| format!("{}: {{ k: \"v\" }},", l.replace('-', "_"))).collect();
+    s = s.replace("OTHER_BODIES", &bodies.join("\n        "));
     s
+}
+
+/// locales of the second enum: the case's names in reverse order (default = the last one) plus `eo`
+fn other_set(c: &Case) -> Vec<String> {
+    let mut all: Vec<String> = c.listed.clone();
+    if !all.contains(&c.default) {
+        all.push(c.default.clone());
+    }
+    all.reverse();
+    if !all.iter().any(|l| l == "eo") {
+        all.insert(1.min(all.len()), "eo".to_string());
+    }
+    all
 }
 
 fn fail(sig: &str, detail: serde_json::Value) -> Failure {
@@ -187,6 +230,16 @@ fn check_case(c: &Case, out: &run::RunOutput, pkg: &str) -> Result<CaseInfo, Fai
     }
     let n: usize = get("n").parse().unwrap_or(0);
     let mut observations = 2u64;
+    // the second enum of the process keeps its own identity too
+    for (i, name) in other_set(c).iter().enumerate() {
+        let got = get(&format!("o{i}|roundtrip"));
+        let parts: Vec<&str> = got.split('\u{1f}').collect();
+        observations += 1;
+        let dir_ok = parts.get(2).map(|d| (*d == "RightToLeft") == RTL.contains(&name.as_str())).unwrap_or(false);
+        if parts.first() != Some(&name.as_str()) || parts.get(1) != Some(&name.as_str()) || !dir_ok {
+            return Err(fail("identity:second-enum", det("the second locale enum of the process does not round-trip", json!({"position": i, "name": name, "observed (as_str, from_str(as_str), direction)": parts}))));
+        }
+    }
     if n != all.len() {
         return Err(fail("get_all-size", det("get_all length", json!({"got": n, "expected": all.len()}))));
     }
